@@ -78,6 +78,28 @@ def small_enough(net, k, limit=15):
 
 
 # ------------------------------------------------------------------ C01
+def gen_C01_wide(chk):
+    """networks far beyond explicit enumeration whose structure gives the answer: a decay chain
+    (every update switches a variable off: the all-zero state is the only steady state and every path
+    ends there), by BDD equality with the known answer"""
+    from .shellprops import add_shell
+    for n in ([40, 70] if not thorough(chk) else [40, 70, 90]):
+        vs = ["v%02d" % i for i in range(1, n + 1)]
+        net = "".join("%s -> %s\n%s -> %s\n$%s: %s & %s\n" % (vs[i], vs[i], vs[i + 1], vs[i], vs[i], vs[i], vs[i + 1])
+                      for i in range(n - 1))
+        net += "$%s: false\n" % vs[-1]
+        zero = " & ".join("~" + v for v in vs)
+        pairs = [("AF (%s)" % zero, "true"), ("EG ~(%s)" % zero, "false"), ("AF (!{x}: AX {x})", "true"),
+                 ("!{x}: AX {x}", zero), ("!{x}: AG EF {x}", zero), ("EF (%s)" % zero, "true"),
+                 ("(~%s) AU (%s)" % (vs[-1], zero), "~%s" % vs[-1]),
+                 ("3{x}: (@{x}: (%s)) & AF {x}" % zero, "true")]
+        fs = []
+        for x, y in pairs:
+            fs += [x, y]
+        add_shell(chk, "EQV", ["1", "A:" + gen.hx(net), "-", ",".join(gen.hx(f) for f in fs)], tag="wide-known",
+                  meta={"net": "decay%d" % n})
+
+
 def near_pattern_formulas(props, rng):
     """closed formulae in which a binder WITHOUT occurrences of its own variable sits directly above
     AX {outer} / AG EF {outer} (they look like the shortcut patterns but are not)"""
@@ -286,6 +308,11 @@ def gen_C03(chk):
                      ("B", "And", st_, ("U", "Not", at_))]
         chk.add_eval(net, 1, "", pats, tag="patterns-dirty", netname=nm)
         chk.add_eval(net, 1, "s", pats[:6], tag="patterns", netname=nm)
+        # ... and on a graph that the user has narrowed to some of the valid colours (restrict)
+        chk.add_eval(net, 1, "K", pats, tag="patterns-narrowed", netname=nm)
+        for j in range(cnt(chk, 2, 6)):
+            fs = [gen.random_formula(rng, rng.randint(1, 6), props, max_vars=1) for _ in range(4)]
+            chk.add_eval(net, 1, rng.choice(["K", "sK"]), fs, tag="narrowed", netname=nm)
         # quantifiers over empty / partly empty domains reaching the result through operators
         # that do not intersect with the unit again
         p0 = gen.T("P", props[0])
@@ -666,6 +693,24 @@ def gen_C10(chk):
                     c1 = chk.add_eval(net, kk, "es", [g1], ctx=[("d", dspec), ("w0", "f" + gen.hx(gen.render(s0)))],
                                       tag="dom3-subst", netname=nm)
                     chk.cases[c1]["pair"] = b0
+            # on a graph narrowed to the states reachable from one state (no model for such units: the
+            # substituted and the direct formula are compared with each other)
+            if closed and j % 3 == 1 and len(props) <= 3:
+                s0 = rng.choice(closed)
+                for q in gen.QUANTS:
+                    body = rng.choice([("H", "Jump", "w", None, s0), ("B", "And", s0, ("U", "EF", gen.T("V", "w"))),
+                                       ("H", "Exists", "u", None, ("B", "And", ("H", "Jump", "u", None, s0), ("U", "Not", ("U", "EF", gen.T("V", "u")))))])
+                    g0 = ("H", q, "w", rng.choice(["d", None]), body)
+                    g1 = replace_subtree(g0, s0, gen.T("W", "w0"))
+                    a = rng.choice(props)
+                    kk = gen.quant_depth(g0)
+                    if kk > 2:
+                        continue
+                    ctx0 = [("d", "f" + gen.hx(rng.choice([a, "~" + a, "true"])))]
+                    b0 = chk.add_eval(net, kk, "eS", [g0], ctx=ctx0, tag="narrowed-base", netname=nm)
+                    c1 = chk.add_eval(net, kk, "eS", [g1], ctx=ctx0 + [("w0", "f" + gen.hx(gen.render(s0)))],
+                                      tag="narrowed-subst", netname=nm)
+                    chk.cases[c1]["pair"] = b0
             if not closed:
                 continue
             rng.shuffle(closed)
@@ -853,6 +898,117 @@ def gen_C13(chk):
             chk.add_eval(net, gen.quant_depth(g), "s", [g], tag="wrnd", netname=nm)
 
 
+def wide_networks(thorough_):
+    """networks with so many states that a set can grow by less than a double can resolve"""
+    nets = []
+    # p follows q, q keeps its value, 58 further variables are constantly true
+    nets.append(("pq58", "q -> p\nq -> q\n$p: q\n$q: q\n" + "".join("$g%02d: true\n" % i for i in range(1, 59)), "p", "q"))
+    # a ring of 58 variables, the first one with an unknown function of its predecessor
+    ring = ["v%02d" % i for i in range(58)]
+    txt = "".join("%s -> %s\n$%s: %s\n" % (ring[i - 1], ring[i], ring[i], ring[i - 1]) for i in range(1, 58))
+    txt += "%s -?? %s\n" % (ring[-1], ring[0])
+    nets.append(("ring58", txt, ring[0], ring[1]))
+    return nets
+
+
+def gen_C13_wide(chk):
+    """weak until on networks with 2^58 and more states: the defining equations by BDD equality"""
+    from .shellprops import add_shell
+    for nm, net, p, q in wide_networks(thorough(chk)):
+        if nm != "pq58":
+            continue        # the until operators take minutes on the ring
+        pairs = []
+        for a, b in [(p, q), (q, p), ("~" + p, q), (p, "~" + q), (p, "false"), ("true", q)]:
+            pairs += [("%s EW %s" % (a, b), "(%s EU %s) | EG %s" % (a, b, a)),
+                      ("%s AW %s" % (a, b), "~((~(%s)) EU ((~(%s)) & (~(%s))))" % (b, a, b)),
+                      ("(%s) => ((%s EW %s) & (%s AW %s))" % (b, a, b, a, b), "true")]
+        fs = []
+        for x, y in pairs:
+            fs += [x, y]
+        add_shell(chk, "EQV", ["0", "A:" + gen.hx(net), "-", ",".join(gen.hx(f) for f in fs)], tag="wide-weak-until",
+                  meta={"net": nm})
+
+
+def gen_C12_wide(chk):
+    """the attractor shortcut on a network with a large strongly connected core (an input, its copy and
+    a negative feedback ring of 110 variables): the generic evaluation is only feasible inside a
+    domain of two states, where it must agree with the shortcut"""
+    from .shellprops import add_shell
+    m = 110
+    ring = ["r%03d" % i for i in range(m)]
+    net = "a0 -> a0\n$a0: a0\na0 -> a1\n$a1: a0\n"
+    net += "%s -| %s\n$%s: !%s\n" % (ring[-1], ring[0], ring[0], ring[-1])
+    net += "".join("%s -> %s\n$%s: %s\n" % (ring[i - 1], ring[i], ring[i], ring[i - 1]) for i in range(1, m))
+    zeros = " & ".join("~" + r for r in ring)
+    d = "(~a0 & ~a1 & %s) | (~a0 & a1 & %s)" % (zeros, zeros)
+    pairs = [("%d% & (!{x}: AG EF {x})", "!{x} in %d%: AG EF {x}"),
+             ("%d% & (!{x}: AX {x})", "!{x} in %d%: AX ({x} & {x})")]
+    fs = []
+    for x, y in pairs:
+        fs += [x, y]
+    add_shell(chk, "EQV", ["1", "A:" + gen.hx(net), "%s=f%s" % (gen.hx("d"), gen.hx(d)), ",".join(gen.hx(f) for f in fs)],
+              tag="wide-attractors", meta={"net": "ring%d" % m})
+
+
+def gen_C11_wide(chk):
+    """EX / EG / AF on a set whose BDD has more than a million nodes and consists of steady states
+    (38 constant inputs paired in the worst variable order, and a switch)"""
+    from .shellprops import add_shell
+    n = 19
+    a = ["a%02d" % i for i in range(1, n + 1)]
+    b = ["b%02d" % i for i in range(1, n + 1)]
+    net = "".join("%s -> %s\n$%s: %s\n" % (v, v, v, v) for v in a + b) + "y -> x\nx -> y\n$x: y\n$y: x\n"
+    S = "(x <=> y) & " + " & ".join("(%s <=> %s)" % (a[i], b[i]) for i in range(n))
+    T = "x & y & " + " & ".join(a + b)
+    pairs = [("EG %S%", "%S%"), ("%S% & EX %S%", "%S%"), ("AF ~%S%", "~%S%"), ("%T% => EX %T%", "true"),
+             ("EX %T% => EX %S%", "true")]
+    fs = []
+    for x, y in pairs:
+        fs += [x, y]
+    add_shell(chk, "EQV", ["0", "A:" + gen.hx(net), "%s=f%s,%s=f%s" % (gen.hx("S"), gen.hx(S), gen.hx("T"), gen.hx(T)),
+                           ",".join(gen.hx(f) for f in fs)], tag="wide-ex", meta={"net": "inputs38"})
+
+
+def gen_C02_wide(chk):
+    """README equivalences with a domain that excludes a single state of a 2^58-state network"""
+    from .shellprops import add_shell
+    for nm, net, p, q in wide_networks(thorough(chk)):
+        names = net_props(net)
+        anyv = " | ".join(names)
+        pairs = [("!{x} in %d%: true", "!{x}: %d% & true"),
+                 ("3{x} in %%d%%: @{x}: ~(%s)" % anyv, "3{x}: @{x}: %%d%% & ~(%s)" % anyv),
+                 ("V{x} in %%d%%: @{x}: (%s)" % anyv, "V{x}: @{x}: %%d%% => (%s)" % anyv),
+                 ("3{x} in %nst%: @{x}: AX {x}", "3{x}: @{x}: %nst% & AX {x}")]
+        fs = []
+        for x, y in pairs:
+            fs += [x, y]
+        ctx = "%s=f%s,%s=f%s" % (gen.hx("d"), gen.hx(anyv), gen.hx("nst"), gen.hx("~(!{x}: AX {x})"))
+        add_shell(chk, "EQV", ["1", "A:" + gen.hx(net), ctx, ",".join(gen.hx(f) for f in fs)], tag="wide-domain",
+                  meta={"net": nm})
+
+
+def long_wildcard_batch(chk):
+    """a batch with far more than a hundred pending duplicates next to a wild-card proposition"""
+    rng = chk.rng
+    net = gen.CURATED["N06"]
+    props = net_props(net)
+    ops = ["EX", "AX", "EF", "AF", "EG", "AG"]
+    fs = []
+    for a in ops:
+        for b in ops:
+            for c in ops[:5]:
+                fs.append(("B", "And", gen.T("W", "p"), ("U", a, ("U", b, ("U", c, gen.T("P", rng.choice(props)))))))
+    fs = fs[:150]
+    batch = fs + fs
+    ctx = [("p", "f" + gen.hx("!{x}: AG EF {x}"))]
+    a = chk.add_eval(net, 1, "es", batch, ctx=ctx, tag="long-batch", netname="N06")
+    b = chk.add_eval(net, 1, "esc", batch, ctx=ctx, tag="long-batch-nocache", netname="N06")
+    chk.cases[a]["group"] = [a, b]
+    chk.cases[b]["group"] = [a, b]
+    chk.cases[a]["perm"] = tuple(range(len(batch)))
+    chk.cases[b]["perm"] = tuple(range(len(batch)))
+
+
 # ------------------------------------------------------------------ C15
 def gen_C15(chk):
     rng = chk.rng
@@ -879,6 +1035,21 @@ def gen_C15(chk):
             for g in group:
                 chk.cases[g]["group"] = group
                 chk.cases[g]["perm"] = (0,)
+
+
+def gen_C15_names(chk):
+    """network variables whose names look like the names of spare copies of another variable"""
+    rng = chk.rng
+    net = "g -> g_extra_c\ng_extra_c -| g\ng -?? t\n$g: !g_extra_c\n$g_extra_c: g\n"
+    props = net_props(net)
+    for j in range(cnt(chk, 4, 12)):
+        f = gen.random_formula(rng, rng.randint(1, 5), props, max_vars=1)
+        for k in (gen.quant_depth(f), gen.quant_depth(f) + 1):
+            chk.add_eval(net, k, "s", [f], tag="extra-names", netname="g_extra")
+            chk.add_eval(net, k, "", [f], tag="extra-names-dirty", netname="g_extra")
+    for f in [gen.T("P", "g_extra_c"), ("U", "AG", gen.T("P", "g_extra_c")), ("B", "And", gen.T("P", "g"), ("U", "Not", gen.T("P", "g_extra_c")))]:
+        for k in (0, 1, 2):
+            chk.add_eval(net, k, "s", [f], tag="extra-names", netname="g_extra")
 
 
 def gen_C15_batches(chk):
@@ -946,6 +1117,23 @@ def gen_C18(chk):
             a = chk.add_eval(net, k, "u", [f], tag="unsafe-pattern", netname=nm)
             b = chk.add_eval(net, k, "", [f], tag="standard", netname=nm)
             chk.cases[a]["pair"] = b
+    # larger networks, by BDD equality: a cascade of 17 / 24 variables and the bundled model
+    from .shellprops import add_shell
+    import os
+    big = []
+    for n in (17, 24):
+        vs = ["c%02d" % i for i in range(n)]
+        big.append(("cascade%d" % n, "%s -> %s\n$%s: %s\n" % (vs[0], vs[0], vs[0], vs[0])
+                    + "".join("%s -> %s\n$%s: %s\n" % (vs[i - 1], vs[i], vs[i], vs[i - 1]) for i in range(1, n)), vs))
+    pth = "/repo/test/model-010-13var-2in.aeon"
+    if os.path.exists(pth):
+        txt = open(pth).read()
+        big.append(("model-010", txt, net_props(txt)))
+    for nm, net, vs in big:
+        a, b = vs[0], vs[-1]
+        fs = ["!{x}: AG EF {x}", "EF (!{x}: AG EF {x})", "~(!{x}: AG EF {x}) & %s" % a, "%s EU (!{x}: AG EF {x})" % b,
+              "(!{x}: AG EF {x}) AW %s" % a, "AG (%s => EF %s)" % (a, b), "3{x}: @{x}: (%s & AG EF {x})" % a]
+        add_shell(chk, "UNSAFE", ["1", "A:" + gen.hx(net), ",".join(gen.hx(f) for f in fs)], tag="unsafe-big", meta={"net": nm})
     # all formulae on steady-state-free networks
     for nm in gen.NO_STEADY:
         net = gen.CURATED[nm]
